@@ -115,7 +115,8 @@ def build(job):
         cutoff = params.get("cutoff")
         pre = None
         if params.get("converter"):
-            recs = mk_recs(eng, [[0, 0]], tag="c")
+            recs = mk_recs(eng, [[0, 1]], tag="c")
+            assume_strict(eng, recs)
             pre = api.Converter([api.Record(**r.kwargs()) for r in recs])
         uris, learned = [], []      # learned: (prefix term as str-like, tail) per contributing URI
         for i in range(m):
@@ -126,9 +127,9 @@ def build(job):
                 u = x + d + t
                 uris.append(u)
                 eng.known("github_issues", github(u))
-                if pre is not None and eng.branch(z3.PrefixOf(_s(recs[0].uri_prefix), _s(u))) if eng.mods.symbolic else (
-                        pre is not None and u.startswith(recs[0].uri_prefix)):
-                    continue        # recognised by the supplied converter: contributes nothing
+                if pre is not None and (eng.branch(Or([z3.PrefixOf(_s(x), _s(u)) for x in recs[0].all_u])) if eng.mods.symbolic else
+                                        any(u.startswith(x) for x in recs[0].all_u)):
+                    continue        # recognised by the supplied converter (canonical URI prefix or synonym): contributes nothing
                 learned.append((x + d, t))
             else:
                 u = eng.var(f"uri{i}")
